@@ -40,14 +40,6 @@ func init() {
 	})
 }
 
-func tkID(auth bool, domain, principal string) string {
-	t := "n"
-	if auth {
-		t = "a"
-	}
-	return t + "/" + XS(domain) + "/" + XS(principal)
-}
-
 var c13Pool = []string{
 	"anon",
 	tkID(false, "bearer", "alice"), // fields set but not authenticated: anonymous
@@ -85,8 +77,8 @@ func c13Gen(g *Gen) {
 			m := Pick(r, streamMethods)
 			rh, hk := r.Bool(), r.Bool()
 			lines := []string{
-				tkInstLine("i0", key, 100000, Pick(r, []int{4096, 4096, 1}), true, "w0", rh, hk),
-				tkInstLine("i1", key, 100000, Pick(r, []int{0, 1, 4096}), true, "w1", rh, hk),
+				tkInstLine("i0", key, 100000, 4096, true, "w0", rh, hk),
+				tkInstLine("i1", key, 100000, Pick(r, []int{0, 4096}), true, "w1", rh, hk),
 			}
 			if r.Chance(40) {
 				lines = append(lines, "aad cursor "+I, "aad call "+I, "aad cursor "+J, "aad call "+J, "ikey "+I, "ikey "+J)
